@@ -1,10 +1,12 @@
-// Command ssa2lean2 translates the SSA form of selected functions of
+// Command ssa2lean3 translates the SSA form of selected functions of
 // github.com/openacid/low into Lean 4 definitions (one file per function under
-// lean/Generated/Ssa2).  It is the translator of tools/ssa2lean (loop-free
-// functions) extended to functions WITH LOOPS that only read memory, explicit
-// panics, slicing, two more lookup tables, the no-op contract stub of the
-// release build and one external call (io.WriterAt.WriteAt).  The hand-written
-// proofs in lean/LowProofs/Tie2 show that each generated definition equals the
+// lean/Generated/Ssa3).  It is the translator of tools/ssa2lean (loop-free
+// functions) and tools/ssa2lean2 (loops that only read memory, explicit panics,
+// slicing, lookup tables, the no-op contract stub, one external call) extended
+// to functions that ALLOCATE AND WRITE SLICES (make / append / copy / indexed
+// stores into memory the function allocated itself), to NESTED loops and to
+// methods that update a slice held in their receiver.  The hand-written proofs
+// in lean/LowProofs/Tie3 show that each generated definition equals the
 // hand-written model function for every sufficiently large `fuel`; since the
 // definitions are regenerated from the current source on every run, the Lean
 // kernel re-checks the model against what the code says now.  See README.md.
@@ -105,7 +107,7 @@ var gen3Targets = []string{
 var targetList = append(append(append([]string{}, legacyTargets...), newTargets...), gen3Targets...)
 
 func fatalf(format string, args ...interface{}) {
-	fmt.Fprintf(os.Stderr, "ssa2lean2: FATAL: "+format+"\n", args...)
+	fmt.Fprintf(os.Stderr, "ssa2lean3: FATAL: "+format+"\n", args...)
 	os.Exit(1)
 }
 
@@ -118,7 +120,7 @@ func main() {
 	dump := flag.Bool("dump", false, "print go/ssa's listing of the selected targets and exit")
 	flag.Parse()
 	if *outdir == "" && !*dump {
-		fmt.Fprintln(os.Stderr, "usage: ssa2lean2 -repo /repo -outdir DIR [-only pkg.Func,...]")
+		fmt.Fprintln(os.Stderr, "usage: ssa2lean3 -repo /repo -outdir DIR [-only pkg.Func,...]")
 		os.Exit(1)
 	}
 	absRepo, err := filepath.Abs(*repo)
@@ -129,7 +131,7 @@ func main() {
 		fatalf("%s is not a Go module root (no go.mod)", absRepo)
 	}
 
-	selected := newTargets
+	selected := gen3Targets
 	if *only != "" {
 		known := map[string]bool{}
 		for _, t := range targetList {
@@ -149,7 +151,7 @@ func main() {
 	}
 
 	prog, pkgs := load(absRepo, *tags, targetList)
-	tr := newTranslator(prog, pkgs, targetList, legacyTargets)
+	tr := newTranslator(prog, pkgs, targetList, legacyTargets, newTargets)
 	if *dump {
 		for _, name := range selected {
 			if f := tr.byName[name]; f != nil {
@@ -171,7 +173,7 @@ func main() {
 		var text string
 		if reason != "" {
 			failed++
-			text = unsupportedFile(name, leanName, reason, tr.legacy[name])
+			text = unsupportedFile(name, leanName, reason, tr.genOf(name))
 		} else {
 			text = lean
 		}
@@ -188,19 +190,28 @@ func main() {
 		}
 	}
 	if failed > 0 {
-		fmt.Fprintf(os.Stderr, "ssa2lean2: %d of %d target(s) could not be translated\n", failed, len(selected))
+		fmt.Fprintf(os.Stderr, "ssa2lean3: %d of %d target(s) could not be translated\n", failed, len(selected))
 		os.Exit(2)
 	}
+}
+
+// genNames: the tool, Lean namespace and tie directory of a generation
+// (1 = tools/ssa2lean, 2 = tools/ssa2lean2, 3 = this tool).
+func genNames(gen int) (tool, ns, tie string) {
+	switch gen {
+	case 1:
+		return "tools/ssa2lean", "Low.Gen.Ssa", "LowProofs/Tie"
+	case 2:
+		return "tools/ssa2lean2", "Low.Gen.Ssa2", "LowProofs/Tie2"
+	}
+	return "tools/ssa2lean3", "Low.Gen.Ssa3", "LowProofs/Tie3"
 }
 
 // leanNameOf maps "bitmap.Get" to "bitmap_Get".
 func leanNameOf(target string) string { return strings.ReplaceAll(target, ".", "_") }
 
-func unsupportedFile(target, leanName, reason string, legacy bool) string {
-	tool, ns := "tools/ssa2lean2", "Low.Gen.Ssa2"
-	if legacy {
-		tool, ns = "tools/ssa2lean", "Low.Gen.Ssa"
-	}
+func unsupportedFile(target, leanName, reason string, gen int) string {
+	tool, ns, _ := genNames(gen)
 	var b strings.Builder
 	fmt.Fprintf(&b, "/- GENERATED by %s from the SSA form of %s.  DO NOT EDIT.\n", tool, target)
 	b.WriteString("   The function could NOT be translated; the tie proof that refers to the definition must fail. -/\n")
